@@ -302,7 +302,8 @@ func liveLabels(v Vars, o buildOpts, before map[string]string) []string {
 		}
 	}
 	out := append([]string{}, v.targets()...)
-	out = append(out, "source://src:a.txt", "source://gen:g.txt", "source://:dir", "source://pkg:b.txt")
+	out = append(out, "source://src:a.txt", "source://gen:g.txt", "source://:dir", "source://pkg:b.txt",
+		"source://"+deepDir+"/x:config.h", "source://"+deepDir+"/y:config.h")
 	if v.XSrc {
 		out = append(out, "source://pkg:c.txt")
 	}
